@@ -33,6 +33,8 @@ pub struct Oracles {
     pub final_reopen: bool,
     /// measure sibling-tree shapes of removed nodes on the byte image (independent parser)
     pub measure_shapes: bool,
+    /// track header counters / file length changes (C02 non-trivial rule)
+    pub track_tables: bool,
 }
 
 pub struct Handle {
@@ -75,6 +77,12 @@ pub struct Engine {
     pub op_index: usize,
     clean_boundaries: usize,
     succ_ops: usize,
+    pub last_header: Vec<u8>,
+    pub tables_changed: bool,
+    pub replaced_after_change: bool,
+    pub succ_mutations: u64,
+    pub pending_refusal: bool,
+    pub freed: bool,
 }
 
 pub struct Resolved {
@@ -237,6 +245,12 @@ impl Engine {
             op_index: 0,
             clean_boundaries: 0,
             succ_ops: 0,
+            last_header: Vec::new(),
+            tables_changed: false,
+            replaced_after_change: false,
+            succ_mutations: 0,
+            pending_refusal: false,
+            freed: false,
         })
     }
 
@@ -260,6 +274,12 @@ impl Engine {
             op_index: 0,
             clean_boundaries: 0,
             succ_ops: 0,
+            last_header: Vec::new(),
+            tables_changed: false,
+            replaced_after_change: false,
+            succ_mutations: 0,
+            pending_refusal: false,
+            freed: false,
         })
     }
 
